@@ -2,6 +2,7 @@ package sim
 
 import (
 	"bufio"
+	"context"
 	"encoding/json"
 	"flag"
 	"fmt"
@@ -188,6 +189,13 @@ var c13Configs = []procConfig{
 	{"gomaxprocs2-gc-heavy-gogc5", []string{"GOMAXPROCS=2", "GOGC=5"}, 3, 4},
 }
 
+// watchdogCtx bounds a child process: budget plus two minutes. A child that never ends is killed; the driver then
+// reports the missing result as harness trouble (exit 2) instead of blocking forever.
+func watchdogCtx(budgetSeconds int) context.Context {
+	ctx, _ := context.WithTimeout(context.Background(), time.Duration(budgetSeconds+120)*time.Second)
+	return ctx
+}
+
 func selfBin() string {
 	p, err := os.Executable()
 	if err != nil {
@@ -236,7 +244,7 @@ func specialC13(args []string) int {
 				if thorough {
 					a = append(a, "-thorough")
 				}
-				cmd := exec.Command(bin, a...)
+				cmd := exec.CommandContext(watchdogCtx(*budget), bin, a...)
 				cmd.Env = append(os.Environ(), cfg.Env...)
 				out, err := cmd.Output()
 				if err != nil {
@@ -272,7 +280,7 @@ func specialC13(args []string) int {
 			if thorough {
 				a = append(a, "-thorough")
 			}
-			cmd := exec.Command(bin, a...)
+			cmd := exec.CommandContext(watchdogCtx(*budget), bin, a...)
 			cmd.Env = append(os.Environ(), "GOMAXPROCS=2")
 			out, err := cmd.Output()
 			mu.Lock()
@@ -455,7 +463,7 @@ func replayC13(path string, quiet bool) int {
 	digests := map[uint64]int{}
 	for i := 0; i < 8; i++ {
 		cfg := c13Configs[i%len(c13Configs)]
-		cmd := exec.Command(bin, "special", "digests", "-file", path, "-gcvar", fmt.Sprint(cfg.GCVar))
+		cmd := exec.CommandContext(watchdogCtx(120), bin, "special", "digests", "-file", path, "-gcvar", fmt.Sprint(cfg.GCVar))
 		cmd.Env = append(os.Environ(), cfg.Env...)
 		out, err := cmd.Output()
 		if err != nil {
